@@ -1629,10 +1629,37 @@ impl KyroDbService for KyroDBServiceImpl {
 
         info!("BulkLoadHnsw: starting streaming load");
 
-        while let Some(req) = stream.message().await? {
+        loop {
+            // Chunks ingested so far are applied (and durable). Once that has happened, a decode /
+            // transport / rate-limit error in the middle of the stream must not become the call's
+            // status - the client would be told "refused" with documents loaded and no counts.
+            // It is reported as a failed item and ends the stream, as in BulkInsert. Before the
+            // first chunk nothing has been applied and the error refuses the whole call.
+            let applied_any = total_loaded > 0 || total_failed_insertion > 0;
+            let req = match stream.message().await {
+                Ok(Some(req)) => req,
+                Ok(None) => break,
+                Err(status) if applied_any => {
+                    validation_errors += 1;
+                    last_error = format!(
+                        "stream error after {} items: {}",
+                        total_received,
+                        status.message()
+                    );
+                    break;
+                }
+                Err(status) => return Err(status),
+            };
             // Re-check rate limit per batch boundary to prevent long-running
             // streams from bypassing per-tenant limits.
-            self.enforce_rate_limit(tenant.as_ref())?;
+            if let Err(status) = self.enforce_rate_limit(tenant.as_ref()) {
+                if !applied_any {
+                    return Err(status);
+                }
+                validation_errors += 1;
+                last_error = status.message().to_string();
+                break;
+            }
 
             total_received += 1;
 
